@@ -95,8 +95,8 @@ int main(int argc, char **argv) {
     fprintf(f, "{\"n\":%d,\"k\":%d,\"ptid\":[", N, K); for (int i = 0; i < N; i++) fprintf(f, "%s%lu", i ? "," : "", ptid[i]);
     fprintf(f, "],\"rec_calls\":["); for (int i = 0; i < N; i++) fprintf(f, "%s%d", i ? "," : "", rec_calls[i]);
     int badr = 0; for (int i = 0; i < 8; i++) badr += bad_ret[i];
-    fprintf(f, "],\"lone_rec_calls\":%d,\"bad_ret\":%d,\"repo_count\":%d,\"repo_first_null\":%d,\"repo_last_null\":%d,\"mutex_trylock\":%d,\"child_status\":%d,\"child_reached\":%d,\"steps\":%d,\"umask_end\":%d,\"inheritable_at_exec\":%d,\"inheritable_fd\":%d}\n",
-            rec_calls[7], badr, count, first_null, last_null, tl, child_status, child_reached, vs_steps(), (int)um_end, inheritable_seen, inheritable_fd);
+    fprintf(f, "],\"lone_rec_calls\":%d,\"bad_ret\":%d,\"repo_count\":%d,\"repo_first_null\":%d,\"repo_last_null\":%d,\"mutex_trylock\":%d,\"child_status\":%d,\"child_reached\":%d,\"steps\":%d,\"umask_end\":%d,\"inheritable_at_exec\":%d,\"inheritable_fd\":%d,\"bad_closes\":%d}\n",
+            rec_calls[7], badr, count, first_null, last_null, tl, child_status, child_reached, vs_steps(), (int)um_end, inheritable_seen, inheritable_fd, vs_bad_closes());
     fclose(f);
     return 0;
 }
